@@ -66,6 +66,32 @@ class ScanEval(SymEval):
                     st.facts = st.facts.add(n - 1)
                     return Seq(n, 'str', ('specialat', off))
         r = self.model.resolve_call(e)
+        if not r and isinstance(e.func, ast.Name):
+            from ..model import dispatch_targets
+            tg = dispatch_targets(self.model, e, T.resolve_local)
+            if tg and isinstance(e._parent, ast.Return) and all(t.mod.short == 'scanner' for t in tg) \
+                    and self.depth <= 6:
+                # dispatch table of scan methods, called in tail position: every entry is a
+                # possible continuation of this path
+                args = [self.ev(x, st) for x in e.args]
+                allret = []
+                for callee in tg:
+                    sub = ScanEval(self.model, callee, self.sink, self.depth + 1)
+                    cst = st.copy()
+                    params = callee.params[1:] if callee.cls is not None and callee.outer is None else callee.params
+                    cst.vars = {k: v for k, v in cst.vars.items() if '.' in k}
+                    for p, v in zip(params, args):
+                        cst.vars[p] = v
+                    sub.run(normalize.sunk_body(callee), cst)
+                    allret += sub.ret_states
+                return ('tail', allret)
+        if not r and isinstance(e.func, ast.Name) and (self.model.resolve_symbol(e._mod, e._fn, e.func) is None) \
+                and T.resolve_local(self.model, e.func):
+            # a call through a local variable that cannot be resolved may move the scan position
+            for a in e.args:
+                self.ev(a, st)
+            st.vars['self.pos'] = Int(Aff.atom(fresh('call')))
+            return Obj(fresh('call'))
         if r and r[0] == 'func' and (r[1].cls is self.func.cls or r[1].outer is not None) \
                 and r[1].mod.short == 'scanner' and r[1].name != 'scan':
             callee = r[1]
@@ -208,6 +234,11 @@ def pd6(model):
                     off = ev.as_int(ev.ev(e.args[1], rst), rst)
             if off is not None:
                 lo, hi = off, off + ev.length(txt, rst)
+        if lo is None and (txt is None or isinstance(txt, Obj) or (isinstance(txt, Seq) and desc is None
+                                                                 and _imprecise(txt.n))):
+            r.undec(v.call, 'the text of the token comes from a value the analysis could not follow: %s'
+                    % unparse(v.call)[:80])
+            continue
         if lo is None:
             r.fail(v.call, 'the text of the token is not a slice of the scanned text: %s'
                    % unparse(v.call)[:80])
